@@ -1,0 +1,85 @@
+//go:build verif
+
+package ggql
+
+//@ -- ================================================================== C03: schema loading after the scan (extends, reference replacement)
+//@ -- registered types are never typed-nil pointers (trusted: established by the parsers and the core-type tables)
+//@ eleminv map[string]Type: v != nil ==> ptrval(v) != 0
+//@ interface Type.Extend
+//@   requires[receiver-present] ptrval(recv) != 0
+//@   requires[addition-present] x != nil && ptrval(x) != 0
+
+//@ func (*Root).addExtends
+//@   props C03
+//@   check panic {C03}
+//@   requires root != nil && root.types != nil && root.dirs != nil
+//@   loop 0: invariant[tables] root.types != nil && root.dirs != nil
+
+//@ -- shape of parsed schema nodes (trusted: established by the SDL parser, which never stores a nil member or a field
+//@ -- without a type; programs that build types through the Add* API with nil arguments are outside C03)
+//@ eleminv []*FieldDef: v != nil
+//@ eleminv map[string]*FieldDef: v != nil
+//@ eleminv []*InputField: v != nil
+//@ eleminv map[string]*InputField: v != nil
+//@ eleminv []*EnumValue: v != nil
+//@ eleminv map[string]*EnumValue: v != nil
+//@ eleminv []*Extend: v != nil
+//@ fieldinv InputField.Type: v != nil
+//@ fieldinv Root.dirs: v != nil
+//@ fieldinv Extend.Adds: v != nil
+
+//@ -- executable documents: the operation and fragment tables never hold nil entries (trusted: the executable parser)
+//@ eleminv map[string]*Op: v != nil
+//@ eleminv map[string]*Fragment: v != nil
+//@ eleminv map[string]*ArgValue: v != nil
+
+//@ -- ------------------------------------------------------------------ interface conformance (Object.Validate)
+//@ -- declared field and argument types are well-formed type expressions (trusted: the SDL parser never builds a wrapper
+//@ -- without a base); member lists hold named types only (addTypes refuses wrappers)
+//@ fieldinv FieldDef.Type: v != nil && wfT(v)
+//@ fieldinv Arg.Type: v != nil && wfT(v)
+//@ axiom typeHList(t *List): t != nil ==> 0 <= typeH(t.Base) && typeH(t.Base) < typeH(box(t))
+//@ func (*Object).isSubType
+//@   props C03
+//@   check panic {C03}
+//@   requires t != nil
+//@   requires wfT(target) && wfT(sub) && ptrval(target) != 0 && ptrval(sub) != 0
+//@   use wfTUnfold(target)
+//@   use wfTUnfold(sub)
+//@   decreases typeH(target)
+//@   use typeHNonNull(as(target, *NonNull))
+//@   use typeHList(as(target, *List))
+//@   assigns nothing
+//@   loop 0: use wfTUnfold(m)
+//@   loop 1: use wfTUnfold(i)
+
+//@ func (*Object).validateField
+//@   props C03
+//@   check panic {C03}
+//@   requires t != nil && fo != nil && fi != nil
+//@   assigns fresh
+
+//@ func (*Object).validateInterface
+//@   props C03
+//@   check panic {C03}
+//@   requires t != nil && i != nil
+//@   assigns fresh
+
+//@ func (*Object).Validate
+//@   props C03
+//@   check panic {C03}
+//@   requires t != nil
+//@   requires fieldDefsOk(t.fields.list)
+//@   assigns fresh
+
+//@ func (*Directive).hasDirLoop
+//@   props C03
+//@   check panic {C03}
+//@   requires t != nil
+//@   requires[visited-set] hits != nil
+
+//@ -- assumed of file systems handed to ParseFS: a successful Open returns a file
+//@ interface fs.FS.Open
+//@   results f, err
+//@   ensures err == nil ==> f != nil
+//@   assigns fresh
